@@ -13,7 +13,7 @@ import os
 import random
 import re
 
-from .. import core, tlcrun, par, impl
+from .. import messages, core, tlcrun, par, impl
 from ..text import s, cps, ss, cpss
 
 
@@ -115,24 +115,22 @@ def run_reader(mods, stream, encoding, dlm, policy, cmt, header, chunk_size):
                 break
             res['recs'].append(r)
     except rbql_engine.RbqlIOHandlingError as e:
-        m = _err.search(str(e))
-        if not m:
-            return {'other_error': str(e)}, None
+        rl = messages.record_and_line(str(e))
+        if rl is None:
+            return {'other_error': 'IOERR ' + str(e)}, None       # an IO-handling error that cites no record / line: the decoding error
         res['err'] = True
-        res['errnr'] = int(m.group(1))
-        res['errnl'] = int(m.group(2))
+        res['errnr'], res['errnl'] = rl
     except Exception as e:  # noqa -- a raw exception (e.g. UnicodeDecodeError) escaping the reader
         return {'other_error': 'RAW ' + type(e).__name__ + ': ' + str(e)}, None
     if it is not None:
         for w in it.get_warnings():
-            if 'BOM' in w:
+            k = messages.classify_warning(w)
+            if k[0] == 'bom':
                 res['bom'] = True
-            m = _def.search(w)
-            if m:
-                res['firstdef'] = int(m.group(1))
-            m = _rag.search(w)
-            if m:
-                res['ragged'] = [int(m.group(1)), int(m.group(2)), int(m.group(3)), int(m.group(4))]
+            elif k[0] == 'quoting':
+                res['firstdef'] = k[1]
+            elif k[0] == 'ragged':
+                res['ragged'] = k[1]
     else:
         # the constructor itself failed (pre-read of the first record)
         res['firstdef'] = res['errnl']
